@@ -1606,4 +1606,22 @@ theorem stopped_fsm_never_overwrites_saved_state (s : Storage) (b : Blk) (hp : b
     saveBlk s { b with dyn := d } = s ∧ syncSave s { b with dyn := d } = s := by
   simp [saveBlk, syncSave, hp]
 
+/-- the final save of a start-up that failed DURING the initialisation (`start_ok` set, phase `failed`; round ten):
+    afterwards the storage holds, for every persistent block, exactly what `get_state()` answers - the state of an
+    initialised block, and NO entry for a block that was never initialised (whatever the storage held before), so
+    that a restart initialises it from its arguments -/
+theorem failed_init_final_save (c : Circ) (t : Time) (hph : c.phase = .failed) (hok : c.startOk = true)
+    (hn : (keys c.blocks).Nodup) (b : Blk) (hb : b ∈ c.blocks) (hp : b.persistent = true) (hk : b.key ≠ stopKey) :
+    (c.stopBegin t).store.get? b.key = getState b.kind b.dyn ∧
+    (b.dyn.inited = false → (c.stopBegin t).store.get? b.key = none) := by
+  have h1 : (c.stopBegin t).store.get? b.key = getState b.kind b.dyn := by
+    simp only [Circ.stopBegin, hph, hok]
+    have hc : (Phase.failed != Phase.running && Phase.failed != Phase.aborted && Phase.failed != Phase.failed) = false := by
+      decide
+    simp only [hc, Bool.false_eq_true, ↓reduceIte]
+    rw [Storage.get?_set_ne _ _ hk]
+    exact saveAll_mem c.blocks hn c.store hb hp
+  refine ⟨h1, fun hi => ?_⟩
+  rw [h1]; simp [getState, hi]
+
 end Edzed.TrTie
